@@ -57,4 +57,13 @@ SEEDS = [
  # behaviour-preserving: the same test written with the operands swapped must stay silent
  {"name": "c18-ext4-dirent-name-length-check-rewritten", "properties": ["C18"], "silent": True, "expect": "",
   "edits": [e("filesystem/ext4/directoryentry.go", "	if 0x8+nameLength > len(b) {", "	if len(b) < nameLength+0x8 {")]},
+ # C18-h: bounded recursion
+ {"name": "c18-ext4-symlink-depth-unlimited", "properties": ["C18"], "expect": "C18-h|",
+  "edits": [e("filesystem/ext4/ext4.go", "	if linksFollowed > maxSymlinkDepth {\n		return nil, fmt.Errorf(\"too many levels of symbolic links while opening %s\", p)\n	}\n	filename := path.Base(p)", "	filename := path.Base(p)")]},
+ {"name": "c18-squashfs-symlink-depth-not-advanced", "properties": ["C18"], "expect": "C18-h|",
+  "edits": [e("filesystem/squashfs/directoryentry.go", "d.fs.openFile(target, os.O_RDONLY, linksFollowed+1)", "d.fs.openFile(target, os.O_RDONLY, linksFollowed)", 2)]},
+ {"name": "c18-ext4-extent-child-level-unchecked", "properties": ["C18"], "expect": "C18-h|",
+  "edits": [e("filesystem/ext4/extent.go", "		if ebf.getDepth() != e.depth-1 {\n			return nil, fmt.Errorf(\"extent tree node in block %d has depth %d, expected %d\", child.diskBlock, ebf.getDepth(), e.depth-1)\n		}\n		blocks, err := ebf.blocks(fs)", "		blocks, err := ebf.blocks(fs)")]},
+ {"name": "c18-iso-ancestors-not-recorded", "properties": ["C18"], "expect": "C18-h|",
+  "edits": [e("filesystem/iso9660/directoryentry.go", "				ancestors = append(ancestors, de.location)\n", "")]},
 ]
